@@ -1,5 +1,6 @@
 import AdaptixModel.Protocol
 import AdaptixModel.Conv.CoerceSpec
+import AdaptixModel.Conv.Hierarchy
 
 namespace Adaptix.Ops.C14
 open Lean Adaptix.Protocol Adaptix.Conv
@@ -117,6 +118,61 @@ def decWorld (j : Json) (policy : Policy) (recipe : List Prov) : Except String C
     policy := policy
     recipe := recipe }
 
+/-! generic class hierarchies (`Conv/Hierarchy.lean`) -/
+
+partial def decPTy (j : Json) : Except String PTy := do
+  let p ← fieldStr j "p"
+  match p with
+  | "var" => return .var (← fieldNat j "v")
+  | "const" => return .const (← decTy (← field j "t"))
+  | "gen1" => return .gen1 (← fieldNat j "c") (← decPTy (← field j "e"))
+  | "iter" =>
+    let kn ← fieldStr j "k"
+    match IterKind.ofName kn with
+    | some k => return .iter k (← decPTy (← field j "e"))
+    | none => throw s!"unknown iterable origin {kn}"
+  | "map" =>
+    let kn ← fieldStr j "k"
+    match MapKind.ofName kn with
+    | some k => return .map k (← decPTy (← field j "key")) (← decPTy (← field j "val"))
+    | none => throw s!"unknown mapping origin {kn}"
+  | _ => throw s!"bad parametric type node {p}"
+
+def decHier (j : Json) : Except String Hier := do
+  (← asArr j).mapM fun c => do
+    let params ← (← fieldArr c "params").mapM asNat
+    let base ← match c.getObjVal? "base" with
+      | .ok .null => pure none
+      | .ok b => do
+        let args ← match b.getObjVal? "args" with
+          | .ok .null => pure none
+          | .ok a => do pure (some (← (← asArr a).mapM decPTy))
+          | .error _ => pure none
+        pure (some ({ cls := ← fieldNat b "cls", args := args } : HBase))
+      | .error _ => pure none
+    let own ← (← fieldArr c "own").mapM fun e => do
+      return ({ name := ← fieldNat e "n", ann := ← decPTy (← field e "ann"), required := ← fieldBool e "req" } : HField)
+    return ({ params := params, base := base, own := own } : HCls)
+
+/-- a case with a `"hier"`: the shapes of its `"targets"` (`{"c": class id, "a": normalised args, "h": index}`) are
+    the *declared* ones (`hierShape`), overriding what the world says; the reply also tells whether the two agree -/
+def withHier (cfg : Cfg) (c : Json) : Except String (Cfg × Option (Bool × String)) := do
+  match c.getObjVal? "hier" with
+  | .error _ => return (cfg, none)
+  | .ok hj =>
+    let H ← decHier hj
+    let tgts ← (← fieldArr c "targets").mapM fun t => do
+      return (← fieldNat t "c", ← (← fieldArr t "a").mapM decTy, ← fieldNat t "h")
+    let shapes := tgts.map fun (c, a, h) => (c, a, hierShape H h a)
+    let agree := shapes.all fun (c, a, fs) =>
+      match cfg.shape c a with
+      | some gs => fieldsBeq fs gs
+      | none => false
+    let look : Nat → List Ty → Option (List Field) := fun c a =>
+      ((shapes.find? fun (c', a', _) => c' == c && Ty.beqList a' a).map (·.2.2)).orElse fun _ => cfg.shape c a
+    let cfg' : Cfg := { cfg with shape := look }
+    return (cfg', some (agree, toString (repr (shapes.map fun (c, _, fs) => (c, fs)))))
+
 def kindName : Kind → String
   | .asIs => "asis" | .optional => "optional" | .iterable => "iterable" | .dict => "dict" | .model => "model"
 
@@ -146,7 +202,13 @@ def handle : Protocol.Handler := fun j => do
       let cfg' ← match c.getObjVal? "policy" with
         | .ok pj => do pure { cfg with policy := ← decPolicy pj }
         | .error _ => pure cfg
-      return encAnswer (getConverter cfg' fuel src dst) vals
+      let (cfg'', hinfo) ← withHier cfg' c
+      let ans := encAnswer (getConverter cfg'' fuel src dst) vals
+      match hinfo with
+      | none => return ans
+      | some (agree, shown) =>
+        return ans.mergeObj (Json.mkObj ([("shapes_agree", Json.bool agree)] ++
+          (if agree then [] else [("declared_shapes", Json.str shown)])))
     return listJ out
   | "tables" =>
     -- the tables the specification and the model rely on, for validation against the interpreter
